@@ -155,6 +155,9 @@ var c18Loops = []string{
 	"for i in [0, 1, 2] {\n  b = i\n  EXIT\n  c = b\n}\n",
 	"for i in \"012\" {\n  b = i\n  EXIT\n  c = b\n}\n",
 	"k = 0\nfor ; k < 3; {\n  k = k + 1\n  b = k\n  i = k\n  EXIT\n  c = b\n}\n",
+	// no init clause, the loop variable is first created by the loop clause
+	"k = 0\nfor ; k < 3; i = k {\n  k = k + 1\n  b = k\n  EXIT\n  c = b\n}\n",
+	"k = 0\nfor ; ; i = k {\n  k = k + 1\n  if k > 3 { break }\n  b = k\n  EXIT\n  c = b\n}\n",
 }
 var c18Exits = []string{"p(\"body\")", "if b == 1 || b == \"1\" { break }", "if b == 1 || b == \"1\" { continue }", "if true { if b == 0 || b == \"0\" { break } }"}
 var c18Wraps = []string{"%s", "if true {\n%s}\n", "for j = 0; j < 2; j = j + 1 {\n  READ\n%s}\n", "if true {\n%s%s  READ\n}\n", "o = 1\n%sif true {\n  o = 2\n}\n"}
